@@ -24,10 +24,10 @@ ASSUMPTIONS = ['x87 80-bit long double available (checked at start, inconclusive
                'periods with T/dt outside [0.2, 2e4] and xi outside [0,1) are not judged',
                'NaN-free records']
 MIN_EVALS = {'quick': {'u,v==exact(row)': 4000, 'third-series identity(row)': 4000, 'T=0 row exact': 150,
-                       'object.response_series==exact of current values': 150, 'shape+finite': 700, 'arguments-unchanged': 900,
+                       'object.response_series==exact of current values': 150, 'object.response_times==periods given': 150, 'shape+finite': 700, 'arguments-unchanged': 900,
                        'earlier-result-unchanged-by-later-call': 300},
              'thorough': {'u,v==exact(row)': 60000, 'third-series identity(row)': 60000, 'T=0 row exact': 2000,
-                          'object.response_series==exact of current values': 2000, 'shape+finite': 10000, 'arguments-unchanged': 20000,
+                          'object.response_series==exact of current values': 2000, 'object.response_times==periods given': 2000, 'shape+finite': 10000, 'arguments-unchanged': 20000,
                           'earlier-result-unchanged-by-later-call': 6000}}
 CTX = None
 K1 = 'C01/illcond-rounding'
@@ -171,17 +171,38 @@ def _post_nj(args, kwargs, result, pre):
 
 
 def _post_obj(args, kwargs, result, pre):
-    """AccSignal.response_series: the result must be the exact response of the object's current values."""
+    """AccSignal.response_series: the result must be the exact response of the object's current values for the periods the
+    CALLER gave - per call, through the constructor keyword or through the attribute (the driver leaves them in
+    `_vf_periods`; calls from elsewhere, e.g. the repository's tests, fall back to the object's own response_times)."""
     self = args[0]
     xi = kwargs.get('xi', args[2] if len(args) > 2 else -1)
     if xi == -1:
         xi = getattr(self, '_cached_xi', 0.05)
+    rt = kwargs.get('response_times', args[1] if len(args) > 1 else None)
+    if rt is None:
+        rt = getattr(self, '_vf_periods', None)
+    if rt is None:
+        rt = self.response_times
+    else:
+        try:
+            same = np.array_equal(np.asarray(self.response_times, dtype=float), np.asarray(rt, dtype=float))
+        except Exception:
+            same = False
+        CTX.check(same, 'object.response_times==periods given',
+                  lambda: _wit(self.values, self.dt, rt, xi, 'AccSignal.response_series', periods_container=type(rt).__name__,
+                               stored=np.asarray(self.response_times, dtype=float)),
+                  'the object holds %d periods %s..., the caller gave %d (%s) %s...'
+                  % (len(self.response_times), np.asarray(self.response_times, dtype=float)[:3], len(rt), type(rt).__name__,
+                     np.asarray(rt, dtype=float)[:3]))
+        try:
+            self._vf_periods = np.array(rt, dtype=float)
+        except Exception:
+            pass
     before = dict(CTX.viol_counts)
-    nv = len(CTX.violations)
-    judge(CTX, self.values, self.dt, self.response_times, xi, result, 'AccSignal.response_series')
+    judge(CTX, self.values, self.dt, rt, xi, result, 'AccSignal.response_series')
     bad = CTX.viol_counts != before
     CTX.check(not bad, 'object.response_series==exact of current values',
-              lambda: _wit(self.values, self.dt, self.response_times, xi, 'AccSignal.response_series'),
+              lambda: _wit(self.values, self.dt, rt, xi, 'AccSignal.response_series', periods_container=type(rt).__name__),
               'object-level response differs from the exact response of the object\'s current values')
 
 
@@ -279,11 +300,26 @@ def run_shard(ctx):
                 res = eqsig.sdof.nigam_and_jennings_response(cont, dt, pcont, xi_arg)
                 recheck_previous(ctx, res, cont, dt, periods, xi)
             else:
-                asig = eqsig.AccSignal(cont, dt)
-                if rng.random() < 0.5:
+                # the periods reach the object per call, through the constructor keyword, or through the public attribute -
+                # in every container form (a 2-tuple must not be taken for a (min, max) range)
+                how = int(rng.integers(4))
+                if how == 0:
+                    asig = eqsig.AccSignal(cont, dt)
                     asig.response_series(response_times=pcont, xi=xi_arg)
-                else:
+                elif how == 1:
+                    asig = eqsig.AccSignal(cont, dt)
                     asig.response_series(pcont, xi_arg)
+                elif how == 2:
+                    asig = eqsig.AccSignal(cont, dt, response_times=pcont)
+                    asig._vf_periods = np.array(periods, dtype=float)
+                    asig.response_series(xi=xi_arg)
+                else:
+                    asig = eqsig.AccSignal(cont, dt)
+                    asig.response_times = pcont
+                    asig._vf_periods = np.array(periods, dtype=float)
+                    asig.response_series(xi=xi_arg)
+                ctx.keyset('object periods (how given, container, count<=3)').add(
+                    (['call-kw', 'call-pos', 'ctor-kw', 'attribute'][how], type(pcont).__name__, min(len(periods), 3)))
                 # history: change the values through the public API, call again (with and without passing periods)
                 k = int(rng.integers(5))
                 if k == 0:
@@ -333,8 +369,23 @@ def replay(w):
     if w.get('acc_container') == 'list':
         acc = [float(t) for t in np.asarray(acc).tolist()]
     if w.get('entry', '').startswith('AccSignal') or w.get('entry') == 'object':
-        asig = eqsig.AccSignal(acc, w['dt'])
-        asig.response_series(response_times=w['periods'], xi=w['xi'])
+        per = w['periods']
+        if w.get('periods_container') in ('tuple', 'list'):
+            per = [float(t) for t in np.asarray(per)]
+            per = tuple(per) if w['periods_container'] == 'tuple' else per
+        for how in range(3):      # per call, constructor keyword, attribute
+            if how == 0:
+                asig = eqsig.AccSignal(acc, w['dt'])
+                asig.response_series(response_times=per, xi=w['xi'])
+            elif how == 1:
+                asig = eqsig.AccSignal(acc, w['dt'], response_times=per)
+                asig._vf_periods = np.array(w['periods'], dtype=float)
+                asig.response_series(xi=w['xi'])
+            else:
+                asig = eqsig.AccSignal(acc, w['dt'])
+                asig.response_times = per
+                asig._vf_periods = np.array(w['periods'], dtype=float)
+                asig.response_series(xi=w['xi'])
     else:
         eqsig.sdof.response_series(acc, w['dt'], w['periods'], w['xi'])
     return ['%s: %s' % (v['clause'], v['msg']) for v in ctx.violations if not v.get('finding')]
